@@ -228,3 +228,30 @@ package encoder
 //@   loop 2: invariant (forall k int :: 0 <= k && k < S ==> gozxing.bit(bits, k) == old(gozxing.bit(bits, k))) && (forall k int :: S <= k && k < Z ==> !gozxing.bit(bits, k))
 //@   loop 2: invariant forall m int, j int :: 0 <= m && m < i && 0 <= j && j < 8 ==> gozxing.bit(bits, Z + 8 * m + j) == ((padbyte(m) >> uint(7 - j)) & 1 == 1)
 //@   loop 2: decreases numPaddingBytes - i
+
+// ---------------------------------------------------------------- parity of one block (8.5), C01 / C04 / C07
+//@ lemma and255(x int)
+//@   property C01
+//@   mode bv
+//@   requires 0 <= x && x <= 255
+//@   ensures x & 255 == x
+// generateECBytes hands the Reed-Solomon encoder of the QR field exactly the block's data bytes followed by room for the parity,
+// and returns the parity symbols the encoder wrote behind them (the data is left as it was, by Encode's contract)
+//@ func generateECBytes(dataBytes []byte, numEcBytesInBlock int) (r []byte, e gozxing.WriterException)
+//@   property C01 C07
+//@   globals reedsolomon.GenericGF_QR_CODE_FIELD_256
+//@   use wfFieldQR()
+//@   use fieldTablesQR(0)
+//@   requires len(dataBytes) >= 1 && numEcBytesInBlock >= 1 && len(dataBytes) + numEcBytesInBlock <= 255
+//@   assert call(Encode,0): len(toEncode) == len(dataBytes) + numEcBytesInBlock && arg2 == numEcBytesInBlock && (forall k int :: 0 <= k && k < len(dataBytes) ==> toEncode[k] == int(dataBytes[k]))
+//@   ensures e == nil && len(r) == numEcBytesInBlock && fresh(r)
+//@   ensures forall k int :: 0 <= k && k < len(dataBytes) ==> dataBytes[k] == old(dataBytes[k])
+//@   internal forall k int :: 0 <= k && k < numEcBytesInBlock ==> int(r[k]) == toEncode[numDataBytes + k] && 0 <= toEncode[numDataBytes + k] && toEncode[numDataBytes + k] <= 255
+//@   internal forall k int :: 0 <= k && k < numDataBytes ==> toEncode[k] == int(dataBytes[k])
+//@   loop 0: invariant 0 <= i && i <= numDataBytes && numDataBytes == len(dataBytes) && len(toEncode) == numDataBytes + numEcBytesInBlock && fresh(toEncode)
+//@   loop 0: invariant (forall k int :: 0 <= k && k < i ==> toEncode[k] == int(dataBytes[k])) && (forall k int :: i <= k && k < len(toEncode) ==> toEncode[k] == 0)
+//@   loop 0: use and255(int(dataBytes[i]))
+//@   loop 0: decreases numDataBytes - i
+//@   loop 1: invariant 0 <= i && i <= numEcBytesInBlock && len(ecBytes) == numEcBytesInBlock && fresh(ecBytes) && numDataBytes == len(dataBytes) && len(toEncode) == numDataBytes + numEcBytesInBlock && arr(ecBytes) != arr(dataBytes)
+//@   loop 1: invariant forall k int :: 0 <= k && k < i ==> int(ecBytes[k]) == toEncode[numDataBytes + k]
+//@   loop 1: decreases numEcBytesInBlock - i
